@@ -10,7 +10,8 @@ errors only with a cause, whole-message Writes, calls after Close fail, Close
 idempotent, no goroutine left at rest after Close) and, under per-step weak
 fairness, that Close returns, both loops terminate, pending calls return and a
 normal peer close reaches io.EOF.  A variant without io.Pipe's write mutex must
-violate NoTear (vacuity guard).
+violate NoTear and a variant whose Close leaves the write pipe open must
+violate NoLeak (vacuity guards).
 
 TLC-generated behaviours (seeded -simulate of four generation configurations,
 plus every maximal path of the smallest one from its dot dump) are projected on
@@ -64,6 +65,9 @@ def cfg_text(name, **subst):
 _seq = [0]
 
 
+QUICK_JVM = [True]
+
+
 def tlc_raw(module, cfgname, cfgtext, workers=4, timeout=600, files=None, extra=None, generation=False):
     """TLC on a scratch copy of spec/WsConn; understands this TLC's wording of a
     liveness violation.  Returns a vlib.TLCResult."""
@@ -82,7 +86,8 @@ def tlc_raw(module, cfgname, cfgtext, workers=4, timeout=600, files=None, extra=
     cmd = ["tlc", "-metadir", os.path.join(d, "meta"), "-workers", str(workers), "-config", cfgname] + list(extra or []) + [module + ".tla"]
     env = dict(os.environ)
     # many small JVMs run side by side: one GC thread each, no JIT compiler threads fighting for the cores
-    env["JAVA_TOOL_OPTIONS"] = (env.get("JAVA_TOOL_OPTIONS", "") + " -Xss64m -XX:ParallelGCThreads=2 -XX:TieredStopAtLevel=1").strip()
+    # (quick tier: runs of a few seconds, the optimising JIT compiler costs more than it gains)
+    env["JAVA_TOOL_OPTIONS"] = (env.get("JAVA_TOOL_OPTIONS", "") + " -Xss64m -XX:ParallelGCThreads=2" + (" -XX:TieredStopAtLevel=1" if QUICK_JVM[0] else "")).strip()
     r = vlib.run(cmd, cwd=d, env=env, timeout=timeout)
     res = vlib.TLCResult()
     res.out, res.wall, res.cmd, res.dir = r.out, r.wall, " ".join(cmd[:1] + cmd[3:]), d
@@ -129,10 +134,10 @@ def simulate(cfg, num, depth, seed, timeout=600):
 
 def model_check(chk, q):
     if q:
-        jobs = [("MC_out_q.cfg", 2), ("MC_in_q.cfg", 2), ("MC_both_q.cfg", 2), ("MC_live_out_q.cfg", 1), ("MC_live_in_q.cfg", 1), ("MC_nolock.cfg", 1)]
+        jobs = [("MC_out_q.cfg", 2), ("MC_in_q.cfg", 2), ("MC_both_q.cfg", 2), ("MC_live_out_q.cfg", 1), ("MC_live_in_q.cfg", 1), ("MC_nolock.cfg", 1), ("MC_leaky.cfg", 1)]
     else:
         jobs = [("MC_out.cfg", 3), ("MC_in.cfg", 4), ("MC_both.cfg", 3), ("MC_out1.cfg", 4), ("MC_live.cfg", 3),
-                ("MC_live_out_q.cfg", 1), ("MC_live_in_q.cfg", 1), ("MC_nolock.cfg", 1)]
+                ("MC_live_out_q.cfg", 1), ("MC_live_in_q.cfg", 1), ("MC_nolock.cfg", 1), ("MC_leaky.cfg", 1)]
     jobs = [(n, "WsConn", w) for n, w in jobs]
     out = {}
     with cf.ThreadPoolExecutor(max_workers=len(jobs)) as ex:
@@ -149,6 +154,9 @@ def model_check(chk, q):
         if name == "MC_nolock.cfg":
             if r.error != "invariant:NoTear":
                 chk.fail("vacuity: WsConn without the pipe's write mutex does not violate NoTear (got %s)" % r.error)
+        elif name == "MC_leaky.cfg":
+            if r.error != "temporal":
+                chk.fail("vacuity: WsConn with a Close that leaves the write pipe open does not violate NoLeak (got %s)" % r.error)
         elif r.error:
             cex.append((name, r.error))
     return cex
@@ -254,7 +262,7 @@ def dot_scripts(dot, limit, rng):
 
 def generate(chk, q):
     """-> list of (abstract steps, mode, origin)"""
-    num = 30 if q else 500
+    num = 30 if q else 300
     plan = [("Gen_race.cfg", "race", num, 60), ("Gen_rest.cfg", "rest", num, 70),
             ("Gen_race_nc.cfg", "race", num, 60), ("Gen_rest_nc.cfg", "rest", num, 70)]
     res = []
@@ -311,6 +319,16 @@ def split_traces(path):
             pend[e["r"]] = e
         elif e["ev"] == "rret" and e["r"] in pend:
             pend.pop(e["r"]).update(pn=e["n"], poff=e["off"], perr=e["err"])
+        elif e["ev"] == "ccall":
+            e.update(perr="none")
+            pend[("c", e["c"])] = e
+        elif e["ev"] == "cret" and ("c", e["c"]) in pend:
+            pend.pop(("c", e["c"])).update(perr=e["err"])
+        elif e["ev"] == "wcall":
+            e.update(pn=0, perr="none")
+            pend[("w", e["w"])] = e
+        elif e["ev"] == "wret" and ("w", e["w"]) in pend:
+            pend.pop(("w", e["w"])).update(pn=e["n"], perr=e["err"])
         cur[1].append(e)
     return traces
 
@@ -355,13 +373,15 @@ def tlc_trace(chk, todo, chunk, reduce, timeout):
     evs, starts = [], []
     for tid, tr in todo:
         starts.append(len(evs) + 1)
-        evs.append({"ev": "reset", "id": tid})
+        evs.append({"ev": "reset", "id": tid, "pr": [[e.get("w", 0), e.get("off", 0), e.get("len", 0)] for e in tr if e.get("ev") == "precv"]})
         evs.extend({k: v for k, v in e.items() if k not in STRIP} for e in tr)
     text = "".join(json.dumps(e, separators=(",", ":")) + "\n" for e in evs)
     r = tlc_raw("WsConn_Trace", "Trace.cfg", cfg_text("Trace.cfg", Chunk=chunk, Reduce="TRUE" if reduce else "FALSE"), workers=1, timeout=timeout,
                 files={"trace.ndjson": text.encode()})
     with LOCK:
         chk.add_tlc(r)
+    if os.environ.get("VERIF_WSCONN_DEBUG"):
+        print("TLC-TRACE reduce=%s traces=%d events=%d states=%d wall=%.1fs ids=%s..%s" % (reduce, len(todo), len(evs), r.distinct, r.wall, todo[0][0], todo[-1][0]), flush=True)
     if r.error is None:
         return None, None, None
     pos, inv = None, None
@@ -381,36 +401,63 @@ def tlc_trace(chk, todo, chunk, reduce, timeout):
 FASTPATH_MISSES = [0]
 
 
-def validate(chk, traces, label, scripts, chunk, timeout=900):
+SKIPPED = []          # traces whose validation did not finish within the time limit (no verdict on them)
+FAST_LIMIT = int(os.environ.get("VERIF_WSCONN_TLC_TIMEOUT", "240"))
+
+
+def validate(chk, traces, label, scripts, chunk, timeout=None):
     """Batch-validate traces against WsConn_Trace.  The batch runs on the fast
     path (Reduce = TRUE: fewer interleavings of silent steps are tried); a trace
     the fast path does not explain is validated alone with Reduce = FALSE, and
-    only that verdict counts.  -> (accepted, [rejected (sid, events, position, event, invariant)])"""
+    only that verdict counts.  A batch that does not finish in time is halved; a
+    single trace that does not finish is recorded in SKIPPED (no verdict on it).
+    -> (accepted, [rejected (sid, events, position, event, invariant)])"""
     accepted, rejected = 0, []
-    todo = list(traces)
-    for _round in range(6):
+    work = [list(traces)]
+    unexplained = 0
+    while work:
+        todo = work.pop(0)
         if not todo:
+            continue
+        if unexplained >= 6:
+            chk.note("trace validation %s: stopped after 6 unexplained traces (%d traces not validated)" % (label, len(todo) + sum(len(w) for w in work)))
             break
-        k, at, inv = tlc_trace(chk, todo, chunk, True, timeout)
+        try:
+            k, at, inv = tlc_trace(chk, todo, chunk, True, timeout or FAST_LIMIT)
+        except vlib.Inconclusive as e:
+            if "TLC timeout" not in str(e):
+                raise
+            if len(todo) == 1:
+                with LOCK:
+                    SKIPPED.append((label, todo[0][0], len(todo[0][1])))
+            else:
+                work[:0] = [todo[:len(todo) // 2], todo[len(todo) // 2:]]
+            continue
         if k is None:
             accepted += len(todo)
-            todo = []
-            break
+            continue
         tid, tr = todo[k]
-        k2, at2, inv2 = tlc_trace(chk, [todo[k]], chunk, False, 1500)
+        try:
+            k2, at2, inv2 = tlc_trace(chk, [todo[k]], chunk, False, 1500)
+        except vlib.Inconclusive as e:
+            if "TLC timeout" not in str(e):
+                raise
+            k2 = "skip"
+            with LOCK:
+                SKIPPED.append((label, tid, len(tr)))
         if k2 is None:
             with LOCK:
                 FASTPATH_MISSES[0] += 1
             if os.environ.get("VERIF_WSCONN_DEBUG"):
                 print("FASTPATH-MISS trace %s at %s: %s | %s" % (tid, at, json.dumps(tr[at - 1]), json.dumps(scripts.get(tid, {}).get("steps"))), flush=True)
-                print("   " + " ".join("%s" % json.dumps(e) for e in tr[max(0, at - 12):at]), flush=True)
             accepted += k + 1
+        elif k2 == "skip":
+            accepted += k
         else:
+            unexplained += 1
             rejected.append((tid, tr, at2, tr[at2 - 1] if 0 < at2 <= len(tr) else {"ev": "?"}, inv2))
             accepted += k
-        todo = todo[k + 1:]
-    if todo:
-        chk.note("trace validation %s: stopped after 6 unexplained traces (%d traces not validated)" % (label, len(todo)))
+        work.insert(0, todo[k + 1:])
     return accepted, rejected
 
 
@@ -434,6 +481,12 @@ def report(chk, rej, label, scripts):
     sg = signature(ev)
     if not inv and ev.get("ev") in ("rret", "wret") and ev.get("err") == "nil" and after_close(tr, at, ev):
         sg = "read:data-after-close" if ev["ev"] == "rret" else "write:success-after-close"
+    if not inv and ev.get("ev") in ("wret", "precv", "pend", "rest"):
+        # the expected-message prophecy stops an explanation before the message that cannot be explained is
+        # reached: name the finding after the message whose bytes belong to no Write, if there is one
+        bad = [e for e in tr if e.get("ev") == "precv" and e.get("len", 0) > 0 and (e.get("off", 0) < 0 or e.get("w", 0) == 0)]
+        if bad:
+            sg, full = "peer-recv:bytes-of-no-write", bad[0]
     sig = "C01/wsconn/" + (("invariant:" + inv) if inv else sg)
     if inv:
         what = "invariant %s of spec/WsConn fails on an execution recorded from the real websocketconn.Conn (trace %s/%s, event %d: %s)" % (inv, label, tid, at, json.dumps(full))
@@ -465,8 +518,8 @@ def replay_scripts(chk, drv, scripts, label, chunk, shards, mode="replay"):
     return tot, traces
 
 
-def validate_all(chk, traces, label, scripts, chunk, nb):
-    nb = max(1, min(nb, len(traces) // 12 or 1))
+def validate_all(chk, traces, label, scripts, chunk, nb, per=12):
+    nb = max(1, min(nb, len(traces) // per or 1))
     batches = [traces[i::nb] for i in range(nb)]
     with cf.ThreadPoolExecutor(max_workers=nb) as ex:
         futs = []
@@ -539,11 +592,15 @@ def herd_scripts(rng, n, first_id):
 
 def run_wsconn_part(chk, args):
     q = chk.tier == "quick"
-    only = set(args.only.split(",")) if getattr(args, "only", None) else {"mc", "gen", "herd"}
+    only = set((getattr(args, "only", None) or "").split(",")) & {"mc", "gen", "herd"} or {"mc", "gen", "herd"}
+    QUICK_JVM[0] = q
     t0 = time.time()
     ex = cf.ThreadPoolExecutor(max_workers=3)
     fbuild = ex.submit(vlib.go_build, "./cmd/wsconndrv", "wsconndrv", linkflag=False)
     fgen = ex.submit(generate, chk, q) if "gen" in only else ex.submit(lambda: ([], 0, True))
+    fmc = None
+    if not q:       # thorough: the model checking is the longest job, start it at once
+        fmc = ex.submit(model_check, chk, q) if "mc" in only else ex.submit(lambda: [])
     drv = fbuild.result()
     pr = vlib.run([drv, "probe"], timeout=60)
     m = re.search(r'\{"chunk":(\d+)\}', pr.out)
@@ -551,8 +608,8 @@ def run_wsconn_part(chk, args):
         raise vlib.Inconclusive("wsconndrv probe failed:\n" + pr.out[-1500:])
     chunk = int(m.group(1))
     abstract, total_small, small_all = fgen.result()
-    # the model checking runs while the scripts are executed and their traces validated
-    fmc = ex.submit(model_check, chk, q) if "mc" in only else ex.submit(lambda: [])
+    if fmc is None:   # quick: the model checking runs while the scripts are executed and their traces validated
+        fmc = ex.submit(model_check, chk, q) if "mc" in only else ex.submit(lambda: [])
 
     rng = random.Random(chk.seed * 7919 + 3)
     scripts, seen, nontriv = [], set(), set()
@@ -570,7 +627,7 @@ def run_wsconn_part(chk, args):
     smap = {s["id"]: s for s in scripts}
     tot, traces = replay_scripts(chk, drv, scripts, "gen", chunk, shards=12)
     chk.note("wsconn: scripts executed (%.0fs)" % (time.time() - t0))
-    acc, rej = validate_all(chk, traces, "gen", smap, chunk, nb=10 if q else 14)
+    acc, rej = validate_all(chk, traces, "gen", smap, chunk, nb=10 if q else 12)
     chk.note("wsconn: %d scripts (%d with a Close, a peer close or a cut) executed on the real package: %d events, writeLoop piece size measured %d; TLC accepted %d/%d traces, %d of them only on the full path (%.0fs)" % (
         len(scripts), len(nontriv), tot["events"], chunk, acc, len(traces), FASTPATH_MISSES[0], time.time() - t0))
     judge(chk, drv, rej, "gen", smap, chunk)
@@ -580,18 +637,21 @@ def run_wsconn_part(chk, args):
 
     # herds: many connections at once in one process (cross-connection interference)
     rounds = (1 if q else 4) if "herd" in only else 0
-    hacc, hn = 0, 0
+    hmap, htr = {}, []
     for k in range(rounds):
         hs = herd_scripts(rng, 10 if q else 16, 100000 + 1000 * k)
-        hmap = {s["id"]: s for s in hs}
-        ht, htr = replay_scripts(chk, drv, hs, "herd%d" % k, chunk, shards=1, mode="herd")
-        a, r = validate_all(chk, htr, "herd%d" % k, hmap, chunk, nb=10)
-        hacc += a
-        hn += len(htr)
-        for x in r:
-            report(chk, x, "herd%d" % k, hmap)
-    chk.note("wsconn herds: %d rounds of concurrent connections, TLC accepted %d/%d traces" % (rounds, hacc, hn))
+        hmap.update({s["id"]: s for s in hs})
+        htr += replay_scripts(chk, drv, hs, "herd%d" % k, chunk, shards=1, mode="herd")[1]
+    hacc, r = validate_all(chk, htr, "herd", hmap, chunk, nb=10 if q else 14, per=2) if htr else (0, [])
+    hn = len(htr)
+    for x in r:
+        report(chk, x, "herd", hmap)
+    chk.note("wsconn herds: %d rounds of concurrent connections, TLC accepted %d/%d traces (%.0fs)" % (rounds, hacc, hn, time.time() - t0))
 
+    if SKIPPED:
+        chk.note("wsconn: %d traces were not validated within the time limit (too many interleavings of unobserved steps): %s" % (len(SKIPPED), SKIPPED[:8]))
+        if len(SKIPPED) > max(2, (len(traces) + hn) // 100):
+            chk.fail("wsconn: %d of %d traces could not be validated within the time limit" % (len(SKIPPED), len(traces) + hn))
     cex = fmc.result()
     ex.shutdown(wait=False)
     if cex:
@@ -601,7 +661,7 @@ def run_wsconn_part(chk, args):
     chk.cov["distinct_nontrivial"] += len(nontriv)
     chk.cov["traces_validated_against_impl"] += acc + hacc
     chk.cov["wsconn"] = {"scripts": len(scripts), "scripts_with_close_or_cut": len(nontriv), "events": tot["events"], "herd_traces": hn,
-                         "small_config_projections": total_small, "small_config_all_replayed": small_all, "piece_size_measured": chunk, "fast_path_misses": FASTPATH_MISSES[0],
+                         "small_config_projections": total_small, "small_config_all_replayed": small_all, "piece_size_measured": chunk, "fast_path_misses": FASTPATH_MISSES[0], "traces_not_validated_in_time": len(SKIPPED),
                          "rule": "a script is the sequence of application/peer/network steps of a TLC behaviour of WsConn; non-trivial = contains a Close, a peer close frame or a cut; distinct by abstract step sequence"}
     chk.assumptions += [
         "wsconn: the peer keeps reading and the kernel buffers what is in flight (a socket write of writeLoop always completes); loopback TCP",
